@@ -133,9 +133,29 @@ theorem at_most_once_stale_witness :
 
 /-! ## Contention-based forwarding -/
 
+/-- value of a duplicate GBC reception under CBF while the copy waits in the buffer: it does not mention `env` at all -/
+private theorem cbf_dup_value (c : RCfg) (hv : c.loct.v = {}) (hcbf : c.cbf = true)
+    (hfix : c.cbfFix = true) (s : RSt) (p : Pkt) (env : Env) (now : Nat) (e : Entry) (hu : Uniq s.t)
+    (hk : p.kind = .gbc) (hle : p.rhl ≤ p.mhl) (hd : mid p.so ≠ mid c.loct.self)
+    (hlive : keep (fresh c.loct now) (lookup s.t p.so) = some e) (hin : p.sn ∈ e.dpl)
+    (hbuf : bufHas s.buf (p.so, p.sn) = true) :
+    recvR c s p env now =
+      ({ s with t := (recv c.loct s.t p.kind p.so p.soPV p.sn now).1, buf := bufDel s.buf (p.so, p.sn) },
+        [.cancel (p.so, p.sn)]) := by
+  have hm : p.kind.singleHop = false := by rw [hk]; rfl
+  have hres : (recv c.loct s.t p.kind p.so p.soPV p.sn now).2 = .dup := by
+    rw [recv_res c.loct hv s.t p.kind p.so p.soPV p.sn now hd hu]
+    simp only [selfOutcome, hlive]
+    simp [(entryStep_some c.loct hv e p.kind p.soPV p.sn).1.2 ⟨hm, hin⟩]
+  have hres' := hres
+  rw [hk] at hres'
+  unfold recvR
+  simp only [if_neg (Nat.not_lt.2 hle), hk, hres', hcbf, hfix, and_self, if_true, cbfDiscard, hbuf]
+
 /-- under CBF a duplicate overheard while the copy waits in the buffer cancels it, and the later timer expiry sends
-nothing -/
-theorem cbf_duplicate_cancels (c : RCfg) (hv : c.loct.v = {}) (hg : c.gacFix = true) (hcbf : c.cbf = true)
+nothing - for EVERY value of the opaque inputs at the time of the duplicate (`env` is unconstrained: where the station is
+relative to the area by then, PAI, PDR, greedy outcome play no role) -/
+theorem cbf_duplicate_cancels (c : RCfg) (hv : c.loct.v = {}) (hcbf : c.cbf = true)
     (hfix : c.cbfFix = true) (s : RSt) (p : Pkt) (env : Env) (now : Nat) (e : Entry) (hu : Uniq s.t)
     (hk : p.kind = .gbc) (hle : p.rhl ≤ p.mhl) (hd : mid p.so ≠ mid c.loct.self)
     (hlive : keep (fresh c.loct now) (lookup s.t p.so) = some e) (hin : p.sn ∈ e.dpl)
@@ -143,21 +163,19 @@ theorem cbf_duplicate_cancels (c : RCfg) (hv : c.loct.v = {}) (hg : c.gacFix = t
     (recvR c s p env now).2 = [.cancel (p.so, p.sn)] ∧
     bufHas (recvR c s p env now).1.buf (p.so, p.sn) = false ∧
     (fire (recvR c s p env now).1 (p.so, p.sn)).2 = [] := by
-  have hm : p.kind.singleHop = false := by rw [hk]; rfl
-  have hres : (recv c.loct s.t p.kind p.so p.soPV p.sn now).2 = .dup := by
-    rw [recv_res c.loct hv s.t p.kind p.so p.soPV p.sn now hd hu]
-    simp only [selfOutcome, hlive]
-    simp [(entryStep_some c.loct hv e p.kind p.soPV p.sn).1.2 ⟨hm, hin⟩]
-  have hr : recvR c s p env now =
-      ({ s with t := (recv c.loct s.t p.kind p.so p.soPV p.sn now).1, buf := bufDel s.buf (p.so, p.sn) },
-        [.cancel (p.so, p.sn)]) := by
-    have hres' := hres
-    rw [hk] at hres'
-    unfold recvR
-    simp only [if_neg (Nat.not_lt.2 hle), hk, hres', hcbf, hfix, and_self, if_true, cbfDiscard, hbuf]
-  rw [hr]
+  rw [cbf_dup_value c hv hcbf hfix s p env now e hu hk hle hd hlive hin hbuf]
   refine ⟨rfl, bufHas_del _ _, ?_⟩
   simp only [fire, bufGet_none_of_not_has _ _ (bufHas_del s.buf (p.so, p.sn))]
+
+/-- … and the outcome is literally the same for any two values of the opaque inputs (e.g. station inside the area when the
+copy was buffered, outside when the duplicate is overheard) -/
+theorem cbf_duplicate_ignores_geometry (c : RCfg) (hv : c.loct.v = {}) (hcbf : c.cbf = true)
+    (hfix : c.cbfFix = true) (s : RSt) (p : Pkt) (env env' : Env) (now : Nat) (e : Entry) (hu : Uniq s.t)
+    (hk : p.kind = .gbc) (hle : p.rhl ≤ p.mhl) (hd : mid p.so ≠ mid c.loct.self)
+    (hlive : keep (fresh c.loct now) (lookup s.t p.so) = some e) (hin : p.sn ∈ e.dpl)
+    (hbuf : bufHas s.buf (p.so, p.sn) = true) : recvR c s p env now = recvR c s p env' now := by
+  rw [cbf_dup_value c hv hcbf hfix s p env now e hu hk hle hd hlive hin hbuf,
+    cbf_dup_value c hv hcbf hfix s p env' now e hu hk hle hd hlive hin hbuf]
 
 /-- the timer of a key that is not (or no longer) in the buffer sends nothing -/
 theorem fire_unbuffered_sends_nothing (s : RSt) (k : Key) (h : bufHas s.buf k = false) : fire s k = (s, []) := by
